@@ -74,12 +74,30 @@ def _next(seq, *default):
     raise _Raise("StopIteration")
 
 
+def _accumulate(x, *a):
+    import itertools
+
+    return list(itertools.accumulate(list(x), *a))
+
+
+def _chain(*a):
+    import itertools
+
+    return list(itertools.chain(*[list(x) for x in a]))
+
+
+def _islice(x, *a):
+    import itertools
+
+    return list(itertools.islice(list(x), *a))
+
+
 def _tee(x, n=2):
     items = list(x)
     return tuple(list(items) for _ in range(n))
 
 
-_PURE_BUILTINS = {"tee": _tee, "zip_longest": _zip_longest, "next": _next, "enumerate": lambda *a: list(enumerate(*a)), "zip": lambda *a: list(zip(*a)), "range": lambda *a: list(range(*a)), "sorted": sorted, "reversed": lambda x: list(reversed(x)),
+_PURE_BUILTINS = {"accumulate": _accumulate, "chain": _chain, "islice": _islice, "tee": _tee, "zip_longest": _zip_longest, "next": _next, "enumerate": lambda *a: list(enumerate(*a)), "zip": lambda *a: list(zip(*a)), "range": lambda *a: list(range(*a)), "sorted": sorted, "reversed": lambda x: list(reversed(x)),
                   "sum": sum, "any": any, "all": all, "bin": bin, "hex": hex, "oct": oct, "chr": chr, "ord": ord, "divmod": divmod, "pow": pow, "int": int, "float": float, "str": str, "len": len, "bool": bool, "min": min, "max": max, "abs": abs, "round": round, "list": list, "tuple": tuple, "bytes": bytes, "set": set, "dict": dict, "bytearray": bytearray}
 
 
@@ -231,6 +249,15 @@ class Stream:
 
     def tell(self):
         return self.pos
+
+    def seek(self, pos, whence=0):
+        if not isinstance(pos, int) or whence not in (0, 1, 2):
+            raise _Unknown("stream.seek() with a non-integer position")
+        new = pos if whence == 0 else self.pos + pos if whence == 1 else len(self.data) + pos
+        if new < 0:
+            raise _Raise("ValueError")
+        self.pos = new
+        return new
 
     def getvalue(self):
         return self.data
@@ -640,7 +667,7 @@ class Interp:
             if r_ is not UNKNOWN:
                 return r_
         if isinstance(e, ast.Call) and isinstance(e.func, ast.Attribute):
-            if isinstance(e.func.value, ast.Name) and isinstance(env.get(e.func.value.id), Stream) and e.func.attr in ("read", "tell", "getvalue", "getbuffer"):
+            if isinstance(e.func.value, ast.Name) and isinstance(env.get(e.func.value.id), Stream) and e.func.attr in ("read", "tell", "seek", "getvalue", "getbuffer"):
                 args = [self.ev(a, env, depth) for a in e.args]
                 return getattr(env[e.func.value.id], e.func.attr)(*args)
             if e.func.attr in ("decode", "encode") and len(e.args) == 1 and not e.keywords:
@@ -707,6 +734,8 @@ class Interp:
                     st_ = self.ev(e.slice.step, env, depth) if e.slice.step is not None else None
                     return base[lo:hi:st_]
                 return base[self.ev(e.slice, env, depth)]
+            if base is None or (isinstance(base, (int, float)) and not isinstance(base, bool)):
+                raise TypeError("object is not subscriptable")
         if isinstance(e, ast.GeneratorExp):
             g0 = e.generators[0]
             first = self.ev(g0.iter, env, depth)
@@ -791,6 +820,28 @@ class Interp:
             kw = {k.arg: self.ev(k.value, env, depth) for k in e.keywords if k.arg}
             if all(isinstance(a, (int, str, bytes, bytearray, list, tuple)) for a in args + list(kw.values())):
                 return getattr({"int": int, "bytes": bytes, "str": str, "dict": dict}[e.func.value.id], e.func.attr)(*args, **kw)
+        if isinstance(e, ast.Call) and isinstance(e.func, ast.Name) and e.func.id in ("map", "filter") and e.func.id not in env and not e.keywords and len(e.args) >= 2:
+            # map(f, xs, ...) / filter(f, xs): the call f(x) is evaluated element by element like any other call
+            seqs = [self.ev(a, env, depth) for a in e.args[1:]]
+            if all(isinstance(s_, (list, tuple, range, LazyGen, str, bytes, bytearray, dict, set, frozenset)) for s_ in seqs):
+                out = []
+                names = [f"__map{i}" for i in range(len(seqs))]
+                call = ast.Call(func=e.args[0], args=[ast.Name(id=n_, ctx=ast.Load()) for n_ in names], keywords=[])
+                ast.copy_location(call, e)
+                ast.fix_missing_locations(call)
+                for items in zip(*[list(s_) for s_ in seqs]):
+                    child = _ChildEnv(env)
+                    for n_, it in zip(names, items):
+                        dict.__setitem__(child, n_, it)
+                    if isinstance(e.args[0], ast.Constant) and e.args[0].value is None:
+                        r_ = items[0]
+                    else:
+                        r_ = self.ev(call, child, depth)
+                    if e.func.id == "map":
+                        out.append(r_)
+                    elif r_:
+                        out.append(items[0])
+                return out
         if isinstance(e, ast.Call) and isinstance(e.func, ast.Name) and e.func.id in _PURE_BUILTINS and e.func.id not in env and not e.keywords:
             args = [self.ev(a, env, depth) for a in e.args]
             if e.func.id == "bool" and len(args) == 1 and isinstance(args[0], Obj):
